@@ -1,6 +1,6 @@
 (* Property C15 — audio-derived arrays are sample-accurate and their axes tell the truth. *)
-From Coq Require Import QArith Qround.
-From SE Require Import Base.Num Base.Res Arr.Range Arr.RangeProofs Audio.Clip Audio.Resample Audio.Spectrogram Audio.AudioProofs.
+From Coq Require Import QArith Qround ZArith List Bool.
+From SE Require Import Gen.Prelude Gen.Source Gen.SrcAudio Base.Num Base.Res Arr.Range Arr.RangeProofs Audio.Clip Audio.Resample Audio.Spectrogram Audio.AudioProofs.
 Open Scope Q_scope.
 
 (* load_clip: exactly floor(duration*sr) frames, file frames from floor(start*sr) on, zero past the end,
@@ -88,3 +88,35 @@ Example C15_ex :
      | Some a => qeqb (s_time_step a) (1 # 4) && Nat.eqb (length (s_freqs a)) 3 | None => false end = true.
 Proof. vm_compute. split; reflexivity. Qed.
 Print Assumptions C15_ex.
+
+(* ---- on the definition read from the source (Gen/Source.v, regenerated on every run): the backward slice of load_clip on
+   the locals it hands to load_audio(offset, samples) and create_time_range(start_time, end_time, samplerate) ---- *)
+Theorem C15_src_load_clip_plan : forall start stop sr, qeqb sr 0 = false ->
+  Source.load_clip_plan start stop sr = Ok (plan start stop sr).
+Proof. exact src_load_clip_plan. Qed.
+Print Assumptions C15_src_load_clip_plan.
+
+Theorem C15_src_plan_counts : forall start stop sr o n s e, qeqb sr 0 = false ->
+  Source.load_clip_plan start stop sr = Ok (o, n, s, e) ->
+  o = Qfloor (start * sr) /\ n = Qfloor ((stop - start) * sr) /\ s = inject_Z o / sr /\ e = s + inject_Z n / sr.
+Proof. exact src_plan_counts. Qed.
+Print Assumptions C15_src_plan_counts.
+
+Theorem C15_src_zero_samplerate : forall start stop sr, qeqb sr 0 = true -> Source.load_clip_plan start stop sr = Err EOther.
+Proof. exact src_load_clip_plan_zero. Qed.
+Print Assumptions C15_src_zero_samplerate.
+
+(* the model of load_clip (of which C15_load_clip_spec speaks) reads the frames and builds the axis of exactly this plan *)
+Theorem C15_model_uses_plan : forall file ch sr start stop,
+  let '(o, n, s, e) := plan start stop sr in
+  Clip.load_clip file ch sr start stop =
+    if (o <? 0)%Z || (Z.of_nat (length file) <? o)%Z then Err EOther
+    else if (n <? 0)%Z then Err EOther
+    else mk_audio (read_frames file ch (Z.to_nat o) (Z.to_nat n)) (create_time_range s e None (Some sr)).
+Proof. exact model_load_clip_uses_plan. Qed.
+Print Assumptions C15_model_uses_plan.
+
+Example C15_src_ex :
+  Source.load_clip_plan (7005 # 10000) (11 # 10) 1000 = Ok (700%Z, 399%Z, inject_Z 700 / 1000, inject_Z 700 / 1000 + inject_Z 399 / 1000).
+Proof. exact src_plan_ex. Qed.
+Print Assumptions C15_src_ex.
